@@ -18,8 +18,9 @@ func ReadSchedule(
 	totalCoins sdk.Coins,
 	readTime int64,
 ) sdk.Coins {
-	// return empty coins if the read time is before or equal start time
-	if readTime <= startTime {
+	// return empty coins if the read time is before the start time; an event
+	// AT the start time (zero-length first period) has happened at that time
+	if readTime < startTime {
 		return sdk.NewCoins()
 	}
 	// return the total coins when the read time is equal or after
@@ -51,8 +52,8 @@ func ReadPastPeriodCount(
 ) int {
 	passedPeriods := 0
 
-	// return 0 if the read time is before or equal start time
-	if readTime <= startTime {
+	// return 0 if the read time is before the start time
+	if readTime < startTime {
 		return 0
 	}
 
